@@ -19,14 +19,27 @@ func genMD(r *rand.Rand) string {
 	return mdText(ps)
 }
 
+// genFin: what the handler returns, over every class of error VALUE a handler can produce (see parseFin): nil,
+// a status error, a plain error, a status error wrapped once (%w) or twice (own type with Unwrap), a context
+// error of the handler's own (bare or wrapped), io.EOF (bare or wrapped).
 func genFin(r *rand.Rand) string {
-	switch r.Intn(5) {
-	case 0, 1:
+	code := func() string { return strconv.Itoa(errCodes[r.Intn(len(errCodes))]) }
+	word := func() string { return errWords[r.Intn(len(errWords))] }
+	switch r.Intn(12) {
+	case 0, 1, 2, 3:
 		return "OK"
-	case 2:
-		return "P" + errWords[r.Intn(len(errWords))]
+	case 4:
+		return "P" + word()
+	case 5, 6, 7:
+		return "E" + code() + ":" + word()
+	case 8:
+		return "V" + code() + ":" + word()
+	case 9:
+		return "U" + code() + ":" + word()
+	case 10:
+		return []string{"CX", "CD", "KX", "KD"}[r.Intn(4)]
 	default:
-		return "E" + strconv.Itoa(errCodes[r.Intn(len(errCodes))]) + ":" + errWords[r.Intn(len(errWords))]
+		return []string{"Z", "Y"}[r.Intn(2)]
 	}
 }
 
@@ -288,6 +301,12 @@ func genCase(r *rand.Rand, size int) scase {
 	if c.Out == "-" && r.Intn(3) == 0 && !strings.ContainsAny(c.Cli, "xd") {
 		c.Out = "~" // no outgoing metadata at all (a handler passing its own context on)
 	}
+	if !c.Reuse && c.Pass == "" && (shape == "unary" || shape == "sstream") && r.Intn(5) < 2 {
+		// the same script through the typed client of a generated trait wrapper
+		if v := viaNames[r.Intn(len(viaNames))]; viaOK(v, shape, c.Cli) {
+			c.Via = v
+		}
+	}
 	// occasional perturbation: explores the boundary of the hypothesis (most are filtered out by WFScripts)
 	if r.Intn(10) == 0 && len(cli) > 1 {
 		i := r.Intn(len(cli))
@@ -300,6 +319,9 @@ func genCase(r *rand.Rand, size int) scase {
 			cli = append(cli[:i:i], append([]string{"r"}, cli[i:]...)...)
 		}
 		c.Cli = joinOps(cli)
+		if c.Via != "" && !viaOK(c.Via, shape, c.Cli) {
+			c.Via = ""
+		}
 	}
 	return c
 }
@@ -375,7 +397,7 @@ func basicCases() []scase {
 		{"cstream", "-", "R,R,M7", "OK", "s1,c,r,r,h,t"},
 		{"cstream", "-", "R,R,Ta=1", "E3:e0", "s1,c,r,h,t"},
 		{"cstream", "-", "R,R", "OK", "s1,x,r"},
-		{"cstream", "-", "R,R,M7", "E9:e0", "s1,c,r,r,h,t"},               // response, then an error
+		{"cstream", "-", "R,R,M7", "E9:e0", "s1,c,r,r,h,t"},              // response, then an error
 		{"cstream", "-", "R,R,Ha=1,M7,Tb=1,Hc=1", "Pboom", "s1,c,r,h,t"}, // same with metadata around the response
 		{"cstream", "-", "R,R,M7,Tb=1", "OK", "s1,c,r,r,h,t"},            // trailer set after the response
 		{"bidi", "-", "R,M1,R,M2,R", "OK", "s1,r,s2,r,c,r,t"},
@@ -398,7 +420,115 @@ func basicCases() []scase {
 		{"unary", "-", "R,Ha=1,W", "OK", "s1,c,x,r,h"},
 		{"unary", "-", "R,W", "OK", "s1,c,x,r,h"},
 		{"unary", "-", "R,Ha=1,W", "OK", "s1,c,d,r,h"},
-	}), append(passCases(), ctxCases()...)...)
+	}), append(append(passCases(), ctxCases()...), append(finCases(), viaCases()...)...)...)
+}
+
+// finCases: every class of error value a handler can return (parseFin), for every call shape, at the first
+// position (before any message) and after a message where the shape has one.
+func finCases() []scase {
+	fins := []string{"V5:e0", "U9:boom", "V14:e0", "CX", "CD", "KX", "KD", "Z", "Y", "Pe0", "E5:e0"}
+	scripts := [][3]string{
+		{"unary", "R", "s1,c,r,h,t"},
+		{"unary", "R,Ha=1,Tb=1", "s1,c,r,h,t"},
+		{"unaryS", "R", "s1,c,r,h,t"},
+		{"sstream", "R", "s1,c,r,h,t"},
+		{"sstream", "R,M1", "s1,c,r,r,h,t"},
+		{"cstream", "R,R", "s1,c,r,h,t"},
+		{"cstream", "R,R,M7", "s1,c,r,r,t"},
+		{"bidi", "R,M1,R", "s1,r,c,r,h,t"},
+		{"bidi", "-", "r,t"},
+	}
+	var out []scase
+	for _, f := range fins {
+		for _, s := range scripts {
+			out = append(out, scase{Shape: s[0], Out: "-", Srv: s[1], Fin: f, Cli: s[2]})
+		}
+	}
+	return out
+}
+
+// viaCases: every sampled generated trait wrapper (via.go) with handlers that attach header and trailer metadata in
+// every way (SetHeader / SendHeader / SetTrailer, before a response, with an error, with a wrapped error), unary
+// calls (call options grpc.Header / grpc.Trailer) and server-streaming calls, and every kind of caller context.
+func viaCases() []scase {
+	scripts := [][4]string{
+		{"unary", "R,M3", "OK", "s2,c,r,h,t"},
+		{"unary", "R,Ha=1,Tb=2,M1", "OK", "s1,c,r,h,t"},
+		{"unary", "R,Sa=1,Tb=2+c=3,M0", "OK", "s1,c,r,h,t"},
+		{"unary", "R,Ha=1,Tb=1", "E5:e0", "s1,c,r,h,t"},
+		{"unary", "R,Tb=1", "V9:boom", "s1,c,r,h,t"},
+		{"unary", "R,E,M1", "OK", "s1,c,r,h,t"},
+		{"unary", "R,Ha=1,W", "OK", "s1,c,x,r,h"},
+		{"sstream", "R,Ha=1,M1,Tb=2,M2", "OK", "s2,c,r,h,r,r,h,t"},
+		{"sstream", "R,Sa=1,Tb=1", "E7:e0", "s0,c,h,r,t"},
+		{"sstream", "R,M1,W", "OK", "s2,c,r,x,r"},
+	}
+	kinds := [][2]string{{"-", "-"}, {"u=1", "Iup=7+u=9"}, {"~", "Iup=7,D,P"}}
+	var out []scase
+	for _, v := range viaNames {
+		for ki, k := range kinds {
+			for _, s := range scripts {
+				if !viaOK(v, s[0], s[3]) || (k[0] == "~" && strings.Contains(s[3], "x")) {
+					continue
+				}
+				if ki > 0 && !strings.Contains(s[1], "E") && s[2] != "OK" {
+					continue
+				}
+				out = append(out, scase{Shape: s[0], Out: k[0], Srv: s[1], Fin: s[2], Cli: s[3], Ctx: k[1], Via: v})
+			}
+		}
+	}
+	return out
+}
+
+// parkedCases (real runs only, monitor only): the caller's context ends WHILE the client is inside a blocking op and
+// the handler is busy with work of its own that does not watch the call's context (G) or waits for the context (W):
+// the call must end for the client at once and as cancelled / expired, whatever the handler goes on to return —
+// in particular in the window after the single response of a method without server streaming was handed over
+// (SendAndClose returned) and before the handler returns.
+func parkedCases() []scase {
+	var out []scase
+	add := func(shape, srv, fin, cli string) {
+		out = append(out, scase{Shape: shape, Out: "-", Srv: srv, Fin: fin, Cli: cli})
+	}
+	for _, f := range []string{"OK", "E9:e0", "Pboom", "V5:e0"} {
+		add("cstream", "R,R,M7,G", f, "s1,c,y,r")           // response handed over, handler still busy
+		add("cstream", "R,R,Ha=1,M7,Tb=1,G", f, "s1,c,y,r") // (no Header() read after the abort: a header was sent, see WFScripts)
+		add("cstream", "R,M7,G", f, "s1,y,r")               // answered without waiting for the half-close
+		add("cstream", "R,R,G", f, "s1,c,y,r")              // busy before any response
+		add("unaryS", "R,G", f, "s1,c,y,r")
+		add("sstream", "R,M1,G", f, "s1,c,r,y,r")
+		add("bidi", "R,M1,G", f, "s1,r,y,r")
+		add("bidi", "G", f, "y,r")
+		add("unary", "R,Ha=1,G", f, "s1,c,x,r,h")
+	}
+	add("cstream", "R,R,M7,G", "OK", "s1,c,z,r") // the same window, ended by the deadline
+	add("cstream", "R,R,M7,G", "E9:e0", "s1,c,z,r")
+	add("bidi", "R,M1,G", "OK", "s1,r,z,r")
+	add("cstream", "R,R,M7,W", "OK", "s1,c,y,r") // the handler notices the cancel itself and returns it
+	return out
+}
+
+// parkedVariants: the cancel scripts of parkedCases on generated caller contexts, outgoing metadata, payloads and
+// handler errors of every class.
+func parkedVariants(r *rand.Rand, n int) []scase {
+	base := parkedCases()
+	var out []scase
+	for i := 0; i < n; i++ {
+		c := base[r.Intn(len(base))]
+		if strings.Contains(c.Cli, "z") {
+			continue
+		}
+		c.Fin = genFin(r)
+		c.Ctx = genCtx(r)
+		if r.Intn(2) == 0 {
+			c.Out = "u=" + strconv.Itoa(r.Intn(3))
+		}
+		d := strconv.Itoa(2 + r.Intn(7))
+		c.Srv = strings.ReplaceAll(strings.ReplaceAll(c.Srv, "M7", "M"+d), "M1", "M"+d)
+		out = append(out, c)
+	}
+	return out
 }
 
 // passCases: every call shape with a party whose message type is not the other side's (pass.go), messages in
